@@ -206,7 +206,12 @@ func (g *treeGen) leaf() *Node {
 	l := &Leaf{}
 	name := rapid.SampledFrom(nameBases).Draw(t, "name") + strconv.Itoa(g.idx)
 	g.idx++
-	kind := rapid.SampledFrom([]string{"tag", "tag", "str", "int", "int", "float", "bool", "arith", "time", "time"}).Draw(t, "leafKind")
+	kinds := []string{"tag", "str", "int", "float", "bool", "arith", "time"}
+	w := []int{3, 1, 2, 2, 1, 2, 3}
+	if g.instant == nil {
+		w[6] = 0 // no user time predicates
+	}
+	kind := kinds[wpick(t, "leafKind", w...)]
 	l.Kind, l.Name = kind, name
 	switch kind {
 	case "tag", "str":
@@ -215,15 +220,15 @@ func (g *treeGen) leaf() *Node {
 			l.RI = rapid.IntRange(0, len(regexTable)-1).Draw(t, "regex")
 		} else {
 			l.S = rapid.SampledFrom(strPool).Draw(t, "str")
-			l.Flip = rapid.IntRange(0, 5).Draw(t, "flip") == 0
+			l.Flip = wpick(t, "flip", 5, 1) == 1
 		}
 	case "int":
 		l.Op = rapid.SampledFrom(cmpOps).Draw(t, "op")
 		l.I = rapid.SampledFrom(intPool).Draw(t, "int")
-		l.Flip = rapid.IntRange(0, 5).Draw(t, "flip") == 0
+		l.Flip = wpick(t, "flip", 5, 1) == 1
 	case "float":
 		l.Op = rapid.SampledFrom(cmpOps).Draw(t, "op")
-		if rapid.IntRange(0, 3).Draw(t, "fine") == 0 {
+		if wpick(t, "fine", 3, 1) == 1 {
 			if excludeFineFloats {
 				g.rec.Exclude("float literal with more than 3 decimals (influxql NumberLiteral.String)")
 				l.F = rapid.SampledFrom(floatPool).Draw(t, "float")
@@ -233,7 +238,7 @@ func (g *treeGen) leaf() *Node {
 		} else {
 			l.F = rapid.SampledFrom(floatPool).Draw(t, "float")
 		}
-		l.Flip = rapid.IntRange(0, 5).Draw(t, "flip") == 0
+		l.Flip = wpick(t, "flip", 5, 1) == 1
 	case "bool":
 		l.Op = rapid.SampledFrom([]string{"=", "!="}).Draw(t, "op")
 		l.B = rapid.Bool().Draw(t, "bool")
@@ -258,7 +263,7 @@ func (g *treeGen) leaf() *Node {
 			b = b / 1e6 * 1e6
 		}
 		l.TNs = b
-		l.Flip = rapid.IntRange(0, 4).Draw(t, "flip") == 0
+		l.Flip = wpick(t, "flip", 4, 1) == 1
 	}
 	return &Node{Op: "leaf", Leaf: l}
 }
@@ -269,14 +274,14 @@ func (g *treeGen) node(depth int, underAnd bool) *Node {
 	t := g.t
 	k := 0
 	if depth > 1 {
-		k = rapid.IntRange(0, 6).Draw(t, "nodeKind")
+		k = wpick(t, "nodeKind", 2, 4, 4, 1)
 	}
 	switch {
-	case k <= 1:
+	case k == 0:
 		return g.leaf()
-	case k <= 3:
+	case k == 1:
 		return &Node{Op: "and", L: g.node(depth-1, true), R: g.node(depth-1, true)}
-	case k <= 5:
+	case k == 2:
 		n := &Node{Op: "or", L: g.node(depth-1, false), R: g.node(depth-1, false)}
 		if underAnd {
 			return &Node{Op: "paren", L: n}
@@ -287,18 +292,146 @@ func (g *treeGen) node(depth int, underAnd bool) *Node {
 	}
 }
 
+// wpick draws an index with the given relative weights (rapid's integer generators are
+// biased towards small values and bounds; an explicit table keeps the class frequencies as intended).
+func wpick(t *rapid.T, label string, weights ...int) int {
+	var table []int
+	for i, w := range weights {
+		for j := 0; j < w; j++ {
+			table = append(table, i)
+		}
+	}
+	x := 0
+	for i := 0; i < 10; i++ { // ten fair bits (a 1-bit draw has no bias); shrinks towards the first entry
+		x <<= 1
+		if rapid.Bool().Draw(t, label) {
+			x |= 1
+		}
+	}
+	return table[x%len(table)]
+}
+
+// genStatement draws what the user wrote in the query text and in groupBy/fill/alignGroup.
+func genStatement(t *rapid.T, rec *kit.Rec, c *Case) {
+	hasTimeDim := false
+	nd := 0
+	if wpick(t, "grouped", 1, 1) == 1 {
+		nd = 1 + wpick(t, "ndims", 2, 2, 1)
+	}
+	for i := 0; i < nd; i++ {
+		k := wpick(t, "dimKind", 2, 1, 2, 1)
+		if hasTimeDim && k >= 2 {
+			k -= 2
+		}
+		d := Dim{Kind: []string{"tag", "star", "time", "bare"}[k]}
+		switch d.Kind {
+		case "time", "bare":
+			hasTimeDim = true
+			d.Every = genDur(t, "gbEvery", []string{"ms", "s", "s", "m", "h"})
+			if d.Kind == "time" && wpick(t, "gbHasOff", 2, 1) == 1 {
+				d.HasOff = true
+				d.Off = genDur(t, "gbOff", []string{"ms", "s", "m"})
+				if rapid.Bool().Draw(t, "gbOffNeg") {
+					d.Off.K = -d.Off.K
+				}
+			}
+		case "tag":
+			d.Tag = rapid.SampledFrom(nameBases).Draw(t, "dimTag")
+		}
+		c.GroupBy = append(c.GroupBy, d)
+	}
+	c.AlignGroup = wpick(t, "alignGroup", 2, 1) == 1
+	if excludeAlignGroupHistorical && c.AlignGroup && hasTimeDim {
+		rec.Exclude("alignGroup() with a group-by-time dimension (Query.Clone detaches the literals)")
+		c.AlignGroup = false
+	}
+	agg := hasTimeDim || rapid.Bool().Draw(t, "agg")
+	fine := wpick(t, "fineField", 9, 1) == 1
+	if fine && excludeFineFloats {
+		rec.Exclude("float literal with more than 3 decimals (influxql NumberLiteral.String)")
+		fine = false
+	}
+	switch {
+	case agg && hasTimeDim && wpick(t, "timeAgg", 5, 1) == 1:
+		c.Fields = rapid.SampledFrom(timeAggFields).Draw(t, "fields")
+	case agg && fine:
+		c.Fields = rapid.SampledFrom(fineAggFields).Draw(t, "fields")
+	case agg:
+		c.Fields = rapid.SampledFrom(aggFields).Draw(t, "fields")
+	case fine:
+		c.Fields = rapid.SampledFrom(fineRawFields).Draw(t, "fields")
+	default:
+		c.Fields = rapid.SampledFrom(rawFields).Draw(t, "fields")
+	}
+	if agg && wpick(t, "hasFill", 2, 1) == 1 {
+		c.Fill = rapid.SampledFrom([]string{"'null'", "'none'", "'previous'", "'linear'", "0", "3", "-1", "1.5", "0.00025", "100.0"}).Draw(t, "fill")
+	}
+	c.Tail = rapid.SampledFrom(tails).Draw(t, "tail")
+	nm := rapid.IntRange(0, 4).Draw(t, "nmasks")
+	for i := 0; i < nm; i++ {
+		c.Masks = append(c.Masks, rapid.Uint32().Draw(t, "mask"))
+	}
+	c.PropOrder = rapid.Permutation([]int{0, 1, 2, 3, 4, 5, 6}).Draw(t, "order")
+}
+
+// genSources draws the declared (db, rp) pairs and the FROM clause; onlyDeclared: every
+// source is a fully qualified declared pair.
+func genSources(t *rapid.T, c *Case, onlyDeclared bool) {
+	ndecl := 1 + wpick(t, "ndecl", 2, 2, 1)
+	for i := 0; i < ndecl; i++ {
+		c.Declared = append(c.Declared, DBRP{rapid.SampledFrom(dbPool).Draw(t, "declDB"), rapid.SampledFrom(rpPool).Draw(t, "declRP")})
+	}
+	nsrc := 1 + wpick(t, "twoSources", 4, 1)
+	for i := 0; i < nsrc; i++ {
+		var s Src
+		kind := 0
+		if !onlyDeclared {
+			kind = wpick(t, "srcKind", 16, 1, 1, 1)
+		}
+		switch kind {
+		case 0:
+			d := c.Declared[rapid.IntRange(0, ndecl-1).Draw(t, "srcDecl")]
+			s.DB, s.RP = d.DB, d.RP
+		case 1: // any pair from the pools: mostly undeclared
+			s.DB, s.RP = rapid.SampledFrom(dbPool).Draw(t, "srcDB"), rapid.SampledFrom(rpPool).Draw(t, "srcRP")
+		case 2: // declared database, other retention policy
+			s.DB, s.RP = c.Declared[0].DB, rapid.SampledFrom(rpPool).Draw(t, "srcRP")
+		case 3: // db and rp both declared, but possibly not as a pair
+			s.DB = c.Declared[rapid.IntRange(0, ndecl-1).Draw(t, "srcDBi")].DB
+			s.RP = c.Declared[rapid.IntRange(0, ndecl-1).Draw(t, "srcRPi")].RP
+		}
+		s.Form = "full"
+		if !onlyDeclared {
+			s.Form = []string{"full", "norp", "bare"}[wpick(t, "srcForm", 48, 1, 1)]
+		}
+		if wpick(t, "srcRegex", 5, 1) == 1 {
+			s.Regex, s.Name = true, rapid.SampledFrom(measRegex).Draw(t, "measRe")
+		} else {
+			s.Name = rapid.SampledFrom(measPool).Draw(t, "meas")
+		}
+		c.Sources = append(c.Sources, s)
+	}
+}
+
+func genWhere(t *rapid.T, rec *kit.Rec, c *Case, instant func() int64) {
+	g := &treeGen{t: t, nowNs: c.NowNs, rec: rec, instant: instant}
+	if wpick(t, "hasWhere", 9, 1) == 0 {
+		c.Where = g.node(1+wpick(t, "depth", 1, 2, 3, 3), false)
+	}
+}
+
 func gen(rec *kit.Rec) func(t *rapid.T) Case {
 	return func(t *rapid.T) Case {
 		var c Case
 		// ---- schedule
-		if rapid.IntRange(0, 3).Draw(t, "sched") == 0 {
+		if wpick(t, "sched", 3, 1) == 1 {
 			c.Cron = genCron(t)
 		} else {
 			c.Every = genDur(t, "every", []string{"ms", "s", "s", "m", "h", "u"})
 			c.Align = rapid.Bool().Draw(t, "align")
 		}
 		c.Period = genDur(t, "period", []string{"ms", "s", "s", "m", "h", "d"})
-		if rapid.IntRange(0, 19).Draw(t, "period0") == 0 {
+		if wpick(t, "period0", 24, 1) == 1 {
 			c.Period.K = 0
 		}
 		if rapid.Bool().Draw(t, "hasOffset") {
@@ -313,7 +446,7 @@ func gen(rec *kit.Rec) func(t *rapid.T) Case {
 		anchor := rapid.SampledFrom(anchors).Draw(t, "anchor")
 		grid := truncNs(anchor, step)
 		var phase int64
-		switch rapid.IntRange(0, 7).Draw(t, "phaseKind") {
+		switch wpick(t, "phaseKind", 1, 1, 1, 1, 1, 1, 3) {
 		case 0:
 			phase = 0
 		case 1:
@@ -334,114 +467,23 @@ func gen(rec *kit.Rec) func(t *rapid.T) Case {
 			phase = phase % step / 2
 		}
 		c.StartNs = grid + phase
-		n := int64(rapid.IntRange(0, 8).Draw(t, "nTicks"))
+		n := int64(wpick(t, "nTicks", 1, 2, 3, 3, 2, 1, 1, 1, 1))
 		delta := rapid.SampledFrom([]int64{0, 0, -1, 1, step / 2, step - 1, -phase, step - phase%step}).Draw(t, "stopDelta")
 		c.StopNs = c.StartNs + n*step + delta
 		ticks := refTicks(c)
 
-		// ---- statement
-		hasTimeDim := false
-		nd := rapid.IntRange(0, 3).Draw(t, "ndims")
-		if rapid.Bool().Draw(t, "nogroup") {
-			nd = 0
-		}
-		for i := 0; i < nd; i++ {
-			kinds := []string{"tag", "tag", "star"}
-			if !hasTimeDim {
-				kinds = append(kinds, "time", "time", "bare")
-			}
-			d := Dim{Kind: rapid.SampledFrom(kinds).Draw(t, "dimKind")}
-			switch d.Kind {
-			case "time", "bare":
-				hasTimeDim = true
-				d.Every = genDur(t, "gbEvery", []string{"ms", "s", "s", "m", "h"})
-				if d.Kind == "time" && rapid.IntRange(0, 2).Draw(t, "gbHasOff") == 0 {
-					d.HasOff = true
-					d.Off = genDur(t, "gbOff", []string{"ms", "s", "m"})
-					if rapid.Bool().Draw(t, "gbOffNeg") {
-						d.Off.K = -d.Off.K
-					}
-				}
-			case "tag":
-				d.Tag = rapid.SampledFrom(nameBases).Draw(t, "dimTag")
-			}
-			c.GroupBy = append(c.GroupBy, d)
-		}
-		c.AlignGroup = rapid.IntRange(0, 2).Draw(t, "alignGroup") == 0
-		if excludeAlignGroupHistorical && c.AlignGroup && hasTimeDim {
-			rec.Exclude("alignGroup() with a group-by-time dimension (Query.Clone detaches the literals)")
-			c.AlignGroup = false
-		}
-		agg := hasTimeDim || rapid.Bool().Draw(t, "agg")
-		fine := rapid.IntRange(0, 9).Draw(t, "fineField") == 0
-		if fine && excludeFineFloats {
-			rec.Exclude("float literal with more than 3 decimals (influxql NumberLiteral.String)")
-			fine = false
-		}
-		switch {
-		case agg && hasTimeDim && rapid.IntRange(0, 5).Draw(t, "timeAgg") == 0:
-			c.Fields = rapid.SampledFrom(timeAggFields).Draw(t, "fields")
-		case agg && fine:
-			c.Fields = rapid.SampledFrom(fineAggFields).Draw(t, "fields")
-		case agg:
-			c.Fields = rapid.SampledFrom(aggFields).Draw(t, "fields")
-		case fine:
-			c.Fields = rapid.SampledFrom(fineRawFields).Draw(t, "fields")
-		default:
-			c.Fields = rapid.SampledFrom(rawFields).Draw(t, "fields")
-		}
-		if agg && rapid.IntRange(0, 2).Draw(t, "hasFill") == 0 {
-			c.Fill = rapid.SampledFrom([]string{"'null'", "'none'", "'previous'", "'linear'", "0", "3", "-1", "1.5", "0.00025", "100.0"}).Draw(t, "fill")
-		}
-		c.Tail = rapid.SampledFrom(tails).Draw(t, "tail")
-
-		// ---- declared dbrps and sources
-		ndecl := rapid.IntRange(1, 3).Draw(t, "ndecl")
-		for i := 0; i < ndecl; i++ {
-			c.Declared = append(c.Declared, DBRP{rapid.SampledFrom(dbPool).Draw(t, "declDB"), rapid.SampledFrom(rpPool).Draw(t, "declRP")})
-		}
-		nsrc := 1
-		if rapid.IntRange(0, 4).Draw(t, "twoSources") == 0 {
-			nsrc = 2
-		}
-		for i := 0; i < nsrc; i++ {
-			var s Src
-			switch rapid.IntRange(0, 9).Draw(t, "srcKind") {
-			case 0: // any pair from the pools: mostly undeclared
-				s.DB, s.RP = rapid.SampledFrom(dbPool).Draw(t, "srcDB"), rapid.SampledFrom(rpPool).Draw(t, "srcRP")
-			case 1: // declared database, other retention policy
-				s.DB, s.RP = c.Declared[0].DB, rapid.SampledFrom(rpPool).Draw(t, "srcRP")
-			case 2: // db and rp both declared, but possibly not as a pair
-				s.DB = c.Declared[rapid.IntRange(0, ndecl-1).Draw(t, "srcDBi")].DB
-				s.RP = c.Declared[rapid.IntRange(0, ndecl-1).Draw(t, "srcRPi")].RP
-			default:
-				d := c.Declared[rapid.IntRange(0, ndecl-1).Draw(t, "srcDecl")]
-				s.DB, s.RP = d.DB, d.RP
-			}
-			s.Form = "full"
-			if f := rapid.IntRange(0, 29).Draw(t, "srcForm"); f == 0 {
-				s.Form = "norp"
-			} else if f == 1 {
-				s.Form = "bare"
-			}
-			if rapid.IntRange(0, 5).Draw(t, "srcRegex") == 0 {
-				s.Regex, s.Name = true, rapid.SampledFrom(measRegex).Draw(t, "measRe")
-			} else {
-				s.Name = rapid.SampledFrom(measPool).Draw(t, "meas")
-			}
-			c.Sources = append(c.Sources, s)
-		}
+		genStatement(t, rec, &c)
+		genSources(t, &c, false)
 
 		// ---- WHERE
 		c.NowNs = (c.StopNs/1e6)*1e6 + rapid.SampledFrom([]int64{0, 3600e9, 86400e9, -60e9}).Draw(t, "nowDelta")
 		per, off := c.Period.Ns(), c.Offset.Ns()
-		g := &treeGen{t: t, nowNs: c.NowNs, rec: rec}
-		g.instant = func() int64 {
+		genWhere(t, rec, &c, func() int64 {
 			base := c.StartNs
 			if len(ticks) > 0 {
 				base = ticks[rapid.IntRange(0, len(ticks)-1).Draw(t, "tlTick")] - off
 			}
-			switch rapid.IntRange(0, 7).Draw(t, "tlKind") {
+			switch wpick(t, "tlKind", 1, 1, 1, 1, 1, 1, 1, 2) {
 			case 0:
 				return base // the stop edge of a query
 			case 1:
@@ -458,17 +500,9 @@ func gen(rec *kit.Rec) func(t *rapid.T) Case {
 				return c.StopNs + 86400e9 // after everything
 			}
 			return base - rapid.Int64Range(0, per+1).Draw(t, "tlIn")
-		}
-		if rapid.IntRange(0, 9).Draw(t, "noWhere") != 0 {
-			c.Where = g.node(rapid.IntRange(1, 4).Draw(t, "depth"), false)
-		}
-		nm := rapid.IntRange(0, 4).Draw(t, "nmasks")
-		for i := 0; i < nm; i++ {
-			c.Masks = append(c.Masks, rapid.Uint32().Draw(t, "mask"))
-		}
+		})
 		c.MutIdx = rapid.IntRange(0, 8).Draw(t, "mut")
 		c.ReplayPath = rapid.Bool().Draw(t, "replayPath")
-		c.PropOrder = rapid.Permutation([]int{0, 1, 2, 3, 4, 5, 6}).Draw(t, "order")
 		return c
 	}
 }
@@ -802,6 +836,9 @@ func depthOf(n *Node) int {
 	if n.Op == "leaf" {
 		return 1
 	}
+	if n.Op == "paren" {
+		return depthOf(n.L)
+	}
 	d := depthOf(n.L)
 	if r := depthOf(n.R); r > d {
 		d = r
@@ -1004,136 +1041,20 @@ func run(c Case, cc *kit.Case) {
 	}
 
 	// ---- every query string
-	userRed, err := reduceCond(userSel.Condition, c.NowNs)
-	if err != nil {
-		cc.Fail("harness/user-condition-reduce", "ConditionExpr on the user's condition of %q: %v", userQ, err)
+	x, sig, msg := newQcheck(c, userSel, rtSel)
+	if sig != "" {
+		cc.Fail(sig, "%s", msg)
 		return
 	}
-	ownCond, ownRange := c.Where.promote()
-	masks := c.assignments(len(leaves) - nTime)
-	strictDiverges := ""
 	for i, s := range strs {
-		S, E := expStops[i]-per, expStops[i]
-		em, err := parseSelect(s)
-		if err != nil {
-			cc.Fail("query/unparsable", "%s\nquery %d %q does not parse: %v", script, i, s, err)
-			return
-		}
-		// fields, sources, group by, fill, tail
-		if !fieldsEqual(em.Fields, userSel.Fields) {
-			sig := "query/fields-altered"
-			if rtSel != nil && !fieldsEqual(rtSel.Fields, userSel.Fields) {
-				sig = "query/reserialisation-alters-literal/fields"
-			}
-			cc.Fail(sig, "user query %q\nemitted      %q\nfields %q became %q", userQ, s, userSel.Fields.String(), em.Fields.String())
-			return
-		}
-		if em.Sources.String() != userSel.Sources.String() {
-			cc.Fail("query/sources-altered", "user query %q\nemitted      %q\nsources %q became %q", userQ, s, userSel.Sources.String(), em.Sources.String())
-			return
-		}
-		if tailOf(em) != tailOf(userSel) {
-			cc.Fail("query/tail-altered", "user query %q\nemitted      %q\n%s became %s", userQ, s, tailOf(userSel), tailOf(em))
-			return
-		}
-		if sig, msg := c.checkDims(em, S); sig != "" {
-			cc.Fail(sig, "%s\nquery %d: %q\n%s", script, i, s, msg)
-			return
-		}
-		if sig, msg := c.checkFill(em); sig != "" {
-			cc.Fail(sig, "%s\nquery %d: %q\n%s", script, i, s, msg)
-			return
-		}
-		// condition on rows
-		emRed, err := reduceCond(em.Condition, c.NowNs)
-		if err != nil {
-			cc.Fail("query/condition-not-reducible", "%s\nquery %d %q: ConditionExpr: %v", script, i, s, err)
-			return
-		}
-		times := []int64{S - 1, S, S + 1, S + (E-S)/2, E - 1, E, E + 1, S - per - 7, E + per + 7, 0, 4102444800e9}
-		for _, l := range leaves {
-			if l.Kind == "time" {
-				times = append(times, l.TNs-1, l.TNs, l.TNs+1)
-			}
-		}
-		for _, m := range masks {
-			vals := rowVals(leaves, m)
-			for _, tm := range times {
-				r := Row{T: tm, Vals: vals}
-				inRange := S <= tm && tm < E
-				// the user's selection, from the generated tree
-				userOwn := ownRange.has(tm) && (ownCond == nil || ownCond.strict(r))
-				userLib, err := userRed.selects(r, c.NowNs)
-				if err != nil {
-					cc.Fail("harness/evaluator", "user query %q on row %s: %v", userQ, fmtRow(r), err)
-					return
-				}
-				if userOwn != userLib {
-					cc.Fail("harness/user-semantics-model", "user query %q, row %s: the generated tree selects=%v, the parsed and reduced text selects=%v", userQ, fmtRow(r), userOwn, userLib)
-					return
-				}
-				got, err := emRed.selects(r, c.NowNs)
-				if err != nil {
-					cc.Fail("query/condition-not-evaluable", "%s\nquery %d %q on row %s: %v", script, i, s, fmtRow(r), err)
-					return
-				}
-				want := userOwn && inRange
-				if got != want {
-					sig := "query/user-condition-altered"
-					switch {
-					case !userOwn && got:
-						sig = "query/user-condition-altered/selects-row-the-user-excluded"
-					case got && tm == E:
-						sig = "query/time-bound/stop-edge-selected"
-					case got && !inRange:
-						sig = "query/time-bound/out-of-range-selected"
-					case !got && tm == S:
-						sig = "query/time-bound/start-edge-dropped"
-					case !got && inRange && !emRed.tr.has(tm):
-						sig = "query/time-bound/in-range-dropped"
-					}
-					if rtSel != nil && emRed.tr.has(tm) == (ownRange.has(tm) && inRange) {
-						if rtRed, err := reduceCond(rtSel.Condition, c.NowNs); err == nil {
-							if v, err := rtRed.selects(r, c.NowNs); err == nil && v != userLib {
-								sig = "query/reserialisation-alters-literal/condition"
-							}
-						}
-					}
-					cc.Fail(sig, "%s\nBatchQueries(%s, %s) query %d (tick %s): %s\nrow: %s\nthe user's condition selects it: %v; time in [%s, %s): %v; so it must be selected: %v\nthe emitted query (time range %s, condition %v) selects it: %v",
-						script, iso(c.StartNs), iso(c.StopNs), i, iso(ticks[i]), s, fmtRow(r), userOwn, iso(S), iso(E), inRange, want, emRed.tr, emRed.cond, got)
-					return
-				}
-				// strict boolean reading (label, or failure with VERIF_C16_STRICT=1)
-				if strictDiverges == "" {
-					sgot, err := evalBool(em.Condition, r, c.NowNs)
-					if err != nil {
-						cc.Fail("query/condition-not-evaluable", "%s\nquery %d %q on row %s: %v", script, i, s, fmtRow(r), err)
-						return
-					}
-					swant := inRange && (c.Where == nil || c.Where.strict(r))
-					if sgot != swant {
-						strictDiverges = fmt.Sprintf("%s\nquery %d: %s\nrow: %s\nstrict boolean reading: user condition AND time in [%s, %s) = %v, emitted text = %v", script, i, s, fmtRow(r), iso(S), iso(E), swant, sgot)
-					}
-				}
-			}
-		}
-		// the extracted time range, exactly
-		wantR := ownRange.and(rng{S, E - 1})
-		if !(wantR.empty() && emRed.tr.empty()) && wantR != emRed.tr {
-			cc.Fail("query/time-bound/range", "%s\nquery %d: %s\ntime range %s, want %s (user range %s, tick range [%s, %s))", script, i, s, emRed.tr, wantR, ownRange, iso(S), iso(E))
+		what := fmt.Sprintf("BatchQueries(%s, %s) query %d (tick %s)", iso(c.StartNs), iso(c.StopNs), i, iso(ticks[i]))
+		if sig, msg := x.query(what, s, expStops[i]-per, expStops[i]); sig != "" {
+			cc.Fail(sig, "%s", msg)
 			return
 		}
 	}
-	if strictDiverges != "" {
-		cc.Label("strict-boolean-reading-diverges")
-		if strictEnv() {
-			shape := "other"
-			if hasTopLevelOr(c.Where) {
-				shape = "top-level-or"
-			}
-			cc.Fail("query/time-bound-not-conjoined/"+shape, "%s", strictDiverges)
-			return
-		}
+	if x.strictVerdict(cc) {
+		return
 	}
 
 	// ---- the queries of a list are independent objects
@@ -1170,6 +1091,160 @@ func run(c Case, cc *kit.Case) {
 	if n := fake.count(); n != 0 {
 		cc.Fail("query/unexpected-live-query", "%d queries reached InfluxDB although batching was never started", n)
 	}
+}
+
+// qcheck holds what is needed to judge one emitted query string against the user's statement.
+type qcheck struct {
+	c              Case
+	script, userQ  string
+	userSel, rtSel *influxql.SelectStatement
+	userRed        reduced
+	ownCond        *Node
+	ownRange       rng
+	leaves         []*Leaf
+	masks          []uint32
+	strictDiverges string
+}
+
+func newQcheck(c Case, userSel, rtSel *influxql.SelectStatement) (*qcheck, string, string) {
+	x := &qcheck{c: c, script: c.script(), userQ: c.userQuery(), userSel: userSel, rtSel: rtSel}
+	var err error
+	x.userRed, err = reduceCond(userSel.Condition, c.NowNs)
+	if err != nil {
+		return nil, "harness/user-condition-reduce", fmt.Sprintf("ConditionExpr on the user's condition of %q: %v", x.userQ, err)
+	}
+	x.ownCond, x.ownRange = c.Where.promote()
+	x.leaves = c.Where.leaves(nil)
+	nTime := 0
+	for _, l := range x.leaves {
+		if l.Kind == "time" {
+			nTime++
+		}
+	}
+	x.masks = c.assignments(len(x.leaves) - nTime)
+	return x, "", ""
+}
+
+// query judges one emitted query string: the statement is the user's (fields, sources,
+// group by, fill, tail) and it selects exactly the rows the user's condition selects
+// whose time lies in [S, E).
+func (x *qcheck) query(what, s string, S, E int64) (string, string) {
+	c, userSel, rtSel, userQ, script := x.c, x.userSel, x.rtSel, x.userQ, x.script
+	per := c.Period.Ns()
+	em, err := parseSelect(s)
+	if err != nil {
+		return "query/unparsable", fmt.Sprintf("%s\n%s %q does not parse: %v", script, what, s, err)
+	}
+	// fields, sources, group by, fill, tail
+	if !fieldsEqual(em.Fields, userSel.Fields) {
+		sig := "query/fields-altered"
+		if rtSel != nil && !fieldsEqual(rtSel.Fields, userSel.Fields) {
+			sig = "query/reserialisation-alters-literal/fields"
+		}
+		return sig, fmt.Sprintf("user query %q\nemitted      %q\nfields %q became %q", userQ, s, userSel.Fields.String(), em.Fields.String())
+	}
+	if em.Sources.String() != userSel.Sources.String() {
+		return "query/sources-altered", fmt.Sprintf("user query %q\nemitted      %q\nsources %q became %q", userQ, s, userSel.Sources.String(), em.Sources.String())
+	}
+	if tailOf(em) != tailOf(userSel) {
+		return "query/tail-altered", fmt.Sprintf("user query %q\nemitted      %q\n%s became %s", userQ, s, tailOf(userSel), tailOf(em))
+	}
+	if sig, msg := c.checkDims(em, S); sig != "" {
+		return sig, fmt.Sprintf("%s\n%s: %q\n%s", script, what, s, msg)
+	}
+	if sig, msg := c.checkFill(em); sig != "" {
+		return sig, fmt.Sprintf("%s\n%s: %q\n%s", script, what, s, msg)
+	}
+	// condition on rows
+	emRed, err := reduceCond(em.Condition, c.NowNs)
+	if err != nil {
+		return "query/condition-not-reducible", fmt.Sprintf("%s\n%s %q: ConditionExpr: %v", script, what, s, err)
+	}
+	times := []int64{S - 1, S, S + 1, S + (E-S)/2, E - 1, E, E + 1, S - per - 7, E + per + 7, 0, 4102444800e9}
+	for _, l := range x.leaves {
+		if l.Kind == "time" {
+			times = append(times, l.TNs-1, l.TNs, l.TNs+1)
+		}
+	}
+	for _, m := range x.masks {
+		vals := rowVals(x.leaves, m)
+		for _, tm := range times {
+			r := Row{T: tm, Vals: vals}
+			inRange := S <= tm && tm < E
+			// the user's selection, from the generated tree
+			userOwn := x.ownRange.has(tm) && (x.ownCond == nil || x.ownCond.strict(r))
+			userLib, err := x.userRed.selects(r, c.NowNs)
+			if err != nil {
+				return "harness/evaluator", fmt.Sprintf("user query %q on row %s: %v", userQ, fmtRow(r), err)
+			}
+			if userOwn != userLib {
+				return "harness/user-semantics-model", fmt.Sprintf("user query %q, row %s: the generated tree selects=%v, the parsed and reduced text selects=%v", userQ, fmtRow(r), userOwn, userLib)
+			}
+			got, err := emRed.selects(r, c.NowNs)
+			if err != nil {
+				return "query/condition-not-evaluable", fmt.Sprintf("%s\n%s %q on row %s: %v", script, what, s, fmtRow(r), err)
+			}
+			want := userOwn && inRange
+			if got != want {
+				sig := "query/user-condition-altered"
+				switch {
+				case !userOwn && got:
+					sig = "query/user-condition-altered/selects-row-the-user-excluded"
+				case got && tm == E:
+					sig = "query/time-bound/stop-edge-selected"
+				case got && !inRange:
+					sig = "query/time-bound/out-of-range-selected"
+				case !got && tm == S:
+					sig = "query/time-bound/start-edge-dropped"
+				case !got && inRange && !emRed.tr.has(tm):
+					sig = "query/time-bound/in-range-dropped"
+				}
+				if rtSel != nil && emRed.tr.has(tm) == (x.ownRange.has(tm) && inRange) {
+					if rtRed, err := reduceCond(rtSel.Condition, c.NowNs); err == nil {
+						if v, err := rtRed.selects(r, c.NowNs); err == nil && v != userLib {
+							sig = "query/reserialisation-alters-literal/condition"
+						}
+					}
+				}
+				return sig, fmt.Sprintf("%s\n%s: %s\nrow: %s\nthe user's condition selects it: %v; time in [%s, %s): %v; so it must be selected: %v\nthe emitted query (time range %s, condition %v) selects it: %v",
+					script, what, s, fmtRow(r), userOwn, iso(S), iso(E), inRange, want, emRed.tr, emRed.cond, got)
+			}
+			// strict boolean reading (label, or failure with VERIF_C16_STRICT=1)
+			if x.strictDiverges == "" {
+				sgot, err := evalBool(em.Condition, r, c.NowNs)
+				if err != nil {
+					return "query/condition-not-evaluable", fmt.Sprintf("%s\n%s %q on row %s: %v", script, what, s, fmtRow(r), err)
+				}
+				swant := inRange && (c.Where == nil || c.Where.strict(r))
+				if sgot != swant {
+					x.strictDiverges = fmt.Sprintf("%s\n%s: %s\nrow: %s\nstrict boolean reading: user condition AND time in [%s, %s) = %v, emitted text = %v", script, what, s, fmtRow(r), iso(S), iso(E), swant, sgot)
+				}
+			}
+		}
+	}
+	// the extracted time range, exactly
+	wantR := x.ownRange.and(rng{S, E - 1})
+	if !(wantR.empty() && emRed.tr.empty()) && wantR != emRed.tr {
+		return "query/time-bound/range", fmt.Sprintf("%s\n%s: %s\ntime range %s, want %s (user range %s, tick range [%s, %s))", script, what, s, emRed.tr, wantR, x.ownRange, iso(S), iso(E))
+	}
+	return "", ""
+}
+
+// strictVerdict records the strict-reading divergence (label; failure only with VERIF_C16_STRICT=1).
+func (x *qcheck) strictVerdict(cc *kit.Case) bool {
+	if x.strictDiverges == "" {
+		return false
+	}
+	cc.Label("strict-boolean-reading-diverges")
+	if !strictEnv() {
+		return false
+	}
+	shape := "other"
+	if hasTopLevelOr(x.c.Where) {
+		shape = "top-level-or"
+	}
+	cc.Fail("query/time-bound-not-conjoined/"+shape, "%s", x.strictDiverges)
+	return true
 }
 
 // checkDims compares the emitted GROUP BY with what .groupBy() says (pipeline/batch.go:
